@@ -51,11 +51,12 @@ func c06cliRun(m *rm.Tree, keep map[string]bool, mode string) (cs c06cliCase, ke
 		args = append(args, "-f", "@/tips.txt", "-r")
 	case "comp":
 		// the compared tree holds the tips to keep plus taxa of its own: tips specific to the input tree are removed
-		files["comp.nw"] = "(" + strings.Join(append(append([]string{}, keepL...), "zz1", "zz2"), ",") + ");\n"
+		// its own taxa sit under an inner node labelled like a tip that is to be removed: a label is not a tip
+		files["comp.nw"] = "(" + strings.Join(append(append([]string{}, keepL...), "(zz1,zz2)"+c06first(dropL)), ",") + ");\n"
 		args = append(args, "-c", "@/comp.nw")
 	case "comp-revert":
 		// with -r only the tips specific to the input tree are kept: the compared tree holds the others
-		files["comp.nw"] = "(" + strings.Join(append(append([]string{}, dropL...), "zz1", "zz2"), ",") + ");\n"
+		files["comp.nw"] = "(" + strings.Join(append(append([]string{}, dropL...), "(zz1,zz2)"+c06first(keepL)), ",") + ");\n"
 		args = append(args, "-c", "@/comp.nw", "-r")
 	}
 	cs = c06cliCase{Mode: mode, Tree: txt, Keep: keepL, Args: args, Files: files}
@@ -167,4 +168,11 @@ func sortedKeys(m map[string]bool) []string {
 	}
 	sort.Strings(out)
 	return out
+}
+
+func c06first(l []string) string {
+	if len(l) == 0 {
+		return ""
+	}
+	return l[0]
 }
